@@ -33,7 +33,8 @@ RULE = ("(a) seeded SPD systems (size 1..30, cond 10..1e8, Gram / banded-with-ne
 BOUNDS = {"quick": "1500 systems x 5 warm-start modes + 3 solver entry points; 96 inversions x up to 10 settings",
           "thorough": "40000 systems; 2400 inversions"}
 EXHAUSTIVE = {"quick": False, "thorough": False}
-ASSUMPTIONS = ["KKT tolerance tau = 1e-9*(||A||2*||s||+||D||); backward error 1e-10 for the unconstrained solver",
+ASSUMPTIONS = ["when the settings force *every* parameter to zero the reduced system is empty and the code raises InversionException; counted as out of domain",
+               "KKT tolerance tau = 1e-9*(||A||2*||s||+||D||); backward error 1e-10 for the unconstrained solver",
                "uniqueness cross-check against scipy.optimize.nnls only when cond(A) <= 1e8, with 1e-6*scale",
                "A and D are taken as reported by the inversion (decided by C04)",
                "check_reconstruction (all-identical-solution guard) is off in both configurations"]
@@ -289,6 +290,11 @@ def check_inversion(ctx, case, objs, desc, st, B, offs, Wc, tag, monitor="kkt.in
         s = _np(inv.reconstruction).copy()
     except aa.exc.InversionException as e:
         if tag["positive"]:
+            if tag["force"] and len(set(int(v) for v in inv.mapper_edge_pixel_list)) == len(D):
+                # every parameter is forced to zero (e.g. a Delaunay mesh whose vertices all lie on the hull): the reduced
+                # system is empty and there is nothing to be optimal; the statement speaks about "the remaining ones"
+                ctx.skipped["all_parameters_forced_to_zero:InversionException(empty reduced system)"] += 1
+                return False
             ctx.check(cond > 1e8, monitor, settings=tag, exception="InversionException from the positive-only solver, cond=%.3g" % cond, **Wc)
         else:
             ctx.skipped["unconstrained:InversionException(allowed)"] += 1
